@@ -179,6 +179,17 @@ func (r *Run) Violate(v Violation) {
 	r.mu.Unlock()
 }
 
+// KnownSignatures returns the signatures listed as known findings for a property (read-only).
+func KnownSignatures(prop string) map[string]bool {
+	out := map[string]bool{}
+	for _, f := range loadFindings() {
+		if f.Property == prop && f.Status == "known" {
+			out[f.Signature] = true
+		}
+	}
+	return out
+}
+
 func loadFindings() []Finding {
 	b, err := os.ReadFile(filepath.Join(Root(), "known_findings.json"))
 	if err != nil {
